@@ -16,7 +16,14 @@ import (
 	"golang.org/x/tools/go/ssa"
 )
 
-const verifRoot = "/verif"
+// verifRoot is where harnesses, known findings and (by default) evidence
+// live: /verif, or the snapshot given by VERIF_ROOT for background runs.
+var verifRoot = func() string {
+	if d := os.Getenv("VERIF_ROOT"); d != "" {
+		return d
+	}
+	return "/verif"
+}()
 
 // outRoot is where evidence and replay files go: /verif, unless a self-test
 // run against a scratch tree (VERIF_REPO) redirects them with VERIF_OUT.
